@@ -61,7 +61,13 @@ pub fn no_skew() -> Rc<dyn Fn(u8) -> i64> {
 }
 
 pub async fn new_group(store: ModelStore, node: u8) -> Group {
-    KeyspaceGroup::new(Arc::new(store), Clock::new(node)).await
+    let g = KeyspaceGroup::new(Arc::new(store), Clock::new(node)).await;
+    // `KeyspaceGroup::new` spawns the hourly purge task, whose FIRST tick fires right away: let it pass while no keyspace
+    // exists. Otherwise that tick interleaves with the first requests of a history and purges a tombstone that has just
+    // become purgeable while the harness is between reading the set and reading the store (false alarm of C02 found by the
+    // multi-seed sweep of round 11, VERIF_SEED=2; C07's real-backend parts had the same visitor, DESIGN.md 5.3).
+    tokio::time::sleep(std::time::Duration::from_millis(3)).await;
+    g
 }
 
 /// Deterministic payload for a write (so reads can be compared byte for byte).
